@@ -510,7 +510,10 @@ def diff_cases(pairs, tmp, res, dl):
 # -- yaml-validate -----------------------------------------------------------
 VALID = ["a: 1\n", "- 1\n- 2\n", "---\na: 1\n---\nb: 2\n", "x\n", ""]
 INVALID = ["a: [1\n", "a: 1\na: 2\n", "---\na: 1\n---\nb: [\n",
-           "a: &x 1\nb: &x 2\n", "- *nope\n", "{a: 1,\n"]
+           "a: &x 1\nb: &x 2\n", "- *nope\n", "{a: 1,\n",
+           # well-formed syntax whose values cannot be constructed
+           "released: 2020-02-30\n", "a: !!int abc\n", "a: !!bool maybe\n",
+           "---\nok: 1\n---\nwhen: 2001-13-01\n", "a: \x01b\n"]
 
 
 def validate_cases(tmp, res, dl, seed):
